@@ -236,6 +236,10 @@ def policy(repo, tier):
                 or (isinstance(n.func, ast.Attribute) and n.func.attr in ("extract", "extractall", "makefile")))]
         obls.append(ground_obligation(f"C09/archive_extractor.py::{q}/policy#no-file-system-effect", not eff, "; ".join(eff), ARCH))
         fns.append(dict(arch.fn_info(q), obligations=1))
+    # oversize members never produce results: the size guard dominates every member read (shared with C12)
+    from contracts import archive_guards
+    for o, info in archive_guards.zip_and_tar("C09", repo, label="oversize-members-are-never-read"):
+        obls.append(o)
     # P3: tar: only regular members are read (isreg() dominates extractfile)
     f = arch.functions.get("_extract_from_tar_optimized")
     if f is not None:
